@@ -179,6 +179,12 @@ func (s *jwtSigner) Hash() []byte {
 	hash.Write(stringx.ToBytes(jwk.Algorithm))
 	hash.Write(stringx.ToBytes(s.iss))
 
+	// the key itself is covered as well. Otherwise, objects created using the previous key (like cached JWTs)
+	// would be considered to be still valid if the key is replaced by a new one having the same key id
+	if thumbprint, err := jwk.Thumbprint(crypto.SHA256); err == nil {
+		hash.Write(thumbprint)
+	}
+
 	return hash.Sum(nil)
 }
 
